@@ -6,7 +6,6 @@ import (
 	blocks "github.com/ipfs/go-block-format"
 	logging "github.com/ipfs/go-log/v2"
 	"github.com/ipld/go-ipld-prime"
-	"github.com/ipld/go-ipld-prime/codec/dagcbor"
 	cidlink "github.com/ipld/go-ipld-prime/linking/cid"
 
 	"github.com/ipfs/go-graphsync"
@@ -111,13 +110,10 @@ func (eo extensionOperation) build(builder *messagequeue.Builder) {
 }
 
 func (eo extensionOperation) size() uint64 {
-	if eo.extension.Data == nil {
-		return 0
-	}
-	// any erorr produced by this call will be picked up during actual encode, so
-	// we can defer handling till then and let it be zero for now
-	len, _ := dagcbor.EncodedLength(eo.extension.Data)
-	return uint64(len)
+	// Extension data is not part of the block bytes a message builder accounts for (and hands
+	// back to the allocator when the message is sent, fails or is scrubbed), so it must not be
+	// reserved either: a reservation that is never released is a leak until the peer disconnects.
+	return 0
 }
 
 type blockOperation struct {
